@@ -429,6 +429,20 @@ def expand(path, seen=None, defs=None):
                 raise GenError('lost anchor: constant %s not found in %s' % (cname, crel))
             out.append('pub const %s: %s = %s;   // value read from %s' % (cname, ctype, m.group(1).strip(), crel))
             continue
+        if st.startswith('//@@ implshape '):
+            # `//@@ implshape <file> <impl~header> <fn,fn,..>`: a trait impl the template restates by hand (forwarders to the verified
+            # inherent methods) is only that restatement while the repo's impl block has exactly these methods - one more (a
+            # provided method overridden) or one fewer, and the restatement would be a model of something else
+            _, _, irel, ihdr, ifns = st.split(None, 4)
+            isrc, iitems = _load(irel)
+            want_hdr = strip_ws(ihdr.replace('~', ' '))
+            blocks = [e for e in iitems if e.kind == 'impl' and (strip_ws(e.name) + ' ').startswith(want_hdr + ' ') and not _cfg_disabled(isrc[e.attrs_start:e.start])]
+            if len(blocks) != 1:
+                raise GenError('lost anchor: impl %s in %s (%d candidates)' % (ihdr, irel, len(blocks)))
+            have = sorted(it.name for it in iitems if it.kind == 'fn' and it.encl and it.encl[-1] is blocks[0] and not _cfg_disabled(isrc[it.attrs_start:it.start]))
+            if have != sorted(x for x in ifns.strip().split(',') if x):
+                raise GenError('impl %s in %s has the methods %s; the restated trait impl of the template covers %s' % (ihdr.replace('~', ' '), irel, have, ifns.strip()))
+            continue
         if st.startswith('//@@ include ') or st.startswith('//@@ include_stub '):
             name = st.split()[2]
             if name in seen:
@@ -438,7 +452,7 @@ def expand(path, seen=None, defs=None):
             if st.startswith('//@@ include_stub '):
                 # contracts proved in the owning unit are *assumed* here: no body is extracted, so no anchor can be lost
                 sub = '\n'.join((l.rstrip() + ' mode=external_body stub=1') if l.strip().startswith('//@@ fn ') and 'mode=external_body' not in l else l
-                                for l in sub.split('\n'))
+                                for l in sub.split('\n') if not l.strip().startswith('//@@ implshape '))
             out.append(sub)
         else:
             out.append(ln)
